@@ -386,7 +386,9 @@ func (rp *ResourcePool) ScaleCapacity(capacity int) error {
 func (rp *ResourcePool) scaleOutResources() (resourceWrapper, bool) {
 	rp.lock.Lock()
 	defer rp.lock.Unlock()
-	if rp.capacity.Get() < rp.maxCapacity.Get() {
+	// while a scale-in is waiting for a resource to come back, the capacity is already
+	// lowered but the resource is still out: scaling out now could exceed maxCapacity
+	if len(rp.scaleInTodo) == 0 && rp.capacity.Get() < rp.maxCapacity.Get() {
 		wrapper, ok := rp.AddCapacityResource()
 		rp.scaleOutTime = time.Now().Unix()
 		return wrapper, ok
